@@ -318,6 +318,7 @@ func (dht *IpfsDHT) GetClosestPeers(ctx context.Context, key string) ([]peer.ID,
   ghost at call(runLookupWithFollowup): $lr = $ret0
   ghost at before call(runLookupWithFollowup): assert(ctxRoot($arg0) == old(ctxRoot(ctx)))
 
+import stdnet "net"
 import recpb "github.com/libp2p/go-libp2p-record/pb"
 # ---- request handlers (C09) -----------------------------------------------
 immutable "github.com/libp2p/go-libp2p-kad-dht.providerPeersTagSize"
@@ -816,13 +817,89 @@ func (q *query) queryPeer(ctx context.Context, ch chan<- *queryUpdate, p peer.ID
   ghost at before call(dialPeer): assert(ctxRoot($arg0) == old(ctxRoot(ctx)))
   ghost at before call(queryFn): assert(ctxRoot($arg0) == ctxRoot(q.ctx))
 
+# a dial succeeds only if the peer is connected or Connect to exactly that peer
+# (no address supplied: the peerstore's) succeeded, under the caller's context
+func (dht *IpfsDHT) dialPeer(ctx context.Context, p peer.ID) error
+  props C01 C03 C10
+  ghostvar $conn bool = false
+  ghostvar $cerr error = nil
+  ghostvar $dialed bool = false
+  modifies *
+  ensures [success-means-connected-or-dialed] imp(result == nil, $conn || ($dialed && $cerr == nil))
+  ensures [dial-error-is-reported] imp($dialed && $cerr != nil, result != nil)
+  ghost at before call(Connectedness): assert($arg0 == p)
+  ghost at call(Connectedness): $conn = ($ret0 == network.Connected)
+  ghost at before call(Connect): assert($arg1.ID == p && len($arg1.Addrs) == 0 && ctxRoot($arg0) == old(ctxRoot(ctx)) && !$conn)
+  ghost at call(Connect): $cerr = $ret0; $dialed = true
+
+# the query function of a closest-peers lookup asks the given peer for the
+# peers closest to the lookup key and returns its answer unchanged
+funclit 0 in (dht *IpfsDHT) pmGetClosestPeers(key string) queryFn
+  props C01 C02 C10
+  ghostvar $peers []*peer.AddrInfo = nil
+  ghostvar $err error = nil
+  ensures [answer-unchanged] result1 == $err && imp($err == nil, result0 == $peers) && imp($err != nil, len(result0) == 0)
+  ghost at before call(GetClosestPeers): assert($arg0 == ctx && $arg1 == p && str($arg2) == key)
+  ghost at call(GetClosestPeers): $peers = $ret0; $err = $ret1
+
 # ---- address scoping filters (C15) ------------------------------------------------
 func isRelayAddr(a ma.Multiaddr) bool
   props C15
   function
+# public: an IPv4 address outside the private and unroutable ranges, or an IPv6
+# address inside 2000::/3; anything without an IP is not public
 func isPublicAddr(a ma.Multiaddr) bool
   props C15
   function
+  ghostvar $ip stdnet.IP = nil
+  ghostvar $err error = nil
+  ghostvar $v4 bool = false
+  ghostvar $p4 bool = false
+  ghostvar $u4 bool = false
+  ghostvar $c6 bool = false
+  ghost at before call(ToIP): assert($arg0 == a)
+  ghost at call(ToIP): $ip = $ret0; $err = $ret1
+  ghost at before call(To4): assert($recv == $ip)
+  ghost at call(To4): $v4 = ($ret0 != nil)
+  ghost at before call(inAddrRange)#0: assert($arg0 == $ip && $arg1 == manet.Private4)
+  ghost at call(inAddrRange)#0: $p4 = $ret0
+  ghost at before call(inAddrRange)#1: assert($arg0 == $ip && $arg1 == manet.Unroutable4)
+  ghost at call(inAddrRange)#1: $u4 = $ret0
+  ghost at before call(Contains): assert($recv == public6 && $arg0 == $ip)
+  ghost at call(Contains): $c6 = $ret0
+  ghost at return: assert(result == ($err == nil && ite($v4, !$p4 && !$u4, $c6)))
+
+# private: an IPv4 address inside the private ranges, or an IPv6 address that is
+# neither in 2000::/3 nor unroutable
+func isPrivateAddr(a ma.Multiaddr) bool
+  props C15
+  function
+  ghostvar $ip stdnet.IP = nil
+  ghostvar $err error = nil
+  ghostvar $v4 bool = false
+  ghostvar $p4 bool = false
+  ghostvar $u6 bool = false
+  ghostvar $c6 bool = true
+  ghost at before call(ToIP): assert($arg0 == a)
+  ghost at call(ToIP): $ip = $ret0; $err = $ret1
+  ghost at before call(To4): assert($recv == $ip)
+  ghost at call(To4): $v4 = ($ret0 != nil)
+  ghost at before call(inAddrRange)#0: assert($arg0 == $ip && $arg1 == manet.Private4)
+  ghost at call(inAddrRange)#0: $p4 = $ret0
+  ghost at before call(inAddrRange)#1: assert($arg0 == $ip && $arg1 == manet.Unroutable6)
+  ghost at call(inAddrRange)#1: $u6 = $ret0
+  ghost at before call(Contains): assert($recv == public6 && $arg0 == $ip)
+  ghost at call(Contains): $c6 = $ret0
+  ghost at return: assert(result == ($err == nil && ite($v4, $p4, !$c6 && !$u6)))
+
+func inAddrRange(ip net.IP, ipnets []*net.IPNet) bool
+  props C15
+  modifies nothing
+  ghostvar $hit bool = false
+  loop 0 invariant !$hit
+  ghost at before call(Contains): assert($recv == ipnets[$key] && $arg0 == ip)
+  ghost at call(Contains): $hit = $ret0
+  ensures [true-only-on-a-hit] imp(result, $hit)
 
 func PublicQueryFilter(_ any, ai peer.AddrInfo) bool
   props C15
